@@ -127,6 +127,7 @@ type View struct {
 	APIs   []*APICall
 	Calls  map[int]*StoreCall
 	CallsL []*StoreCall
+	yields []Event
 	End    time.Duration // VT of teardown
 	EndSeq int
 	Insts  []string
@@ -193,6 +194,8 @@ func NewView(spec *Spec, ev []Event) *View {
 	openAPI := map[string][]*APICall{}
 	for idx, e := range ev {
 		switch e.Kind {
+		case "yield":
+			v.yields = append(v.yields, e)
 		case "teardown":
 			if v.End < 0 {
 				v.End = e.VT
